@@ -4,7 +4,7 @@ from . import mef_rules as M
 
 def run(cx):
     M.fit_model(cx)
-    cx.floor('FORMULA', cx.rules.get('FORMULA', 0), 13, 'fit statements')
+    cx.floor('FORMULA', cx.rules.get('FORMULA', 0), 11, 'fit statements')
     cx.decided += [
         'length mismatch and fewer than three populations are refused before anything is computed',
         'error function, bead model and standard curve have the documented normal forms: the standard curve is sign(x)*exp(b)*|x|**m (odd, zero at zero); the bead model is exp(m*log x + b) - autofluorescence with the same parameter indices',
